@@ -202,11 +202,9 @@ Definition dup_guard_op (o : op) : bool :=
   match o with OStore n | OOverwrite n => consistentb n | _ => true end.
 
 (* round 3: the buffer guard of the operation, if the operation gets as far as flushing a buffer in this state *)
-Definition tx_guard_op (b : backend) (d : disk) (c : cache) (o : op) : bool :=
-  match plan_of current b d c o with
-  | PSteps _ _ => guard_C11_tx d c o
-  | _ => true
-  end.
+(* round 4: the EXACT guard (C11_crash_safe_exact: clause (a) fails at some interruption point iff the operation is
+   outside it; clauses (b), (c) need no guard) *)
+Definition tx_guard_op (b : backend) (d : disk) (c : cache) (o : op) : bool := guard_C11_exact d c o.
 
 (* (dup guard, cycle guard, buffer guard) over a failure-free history *)
 Fixpoint hist_guards (b : backend) (d : disk) (c : cache) (l : list hop) : bool * bool * bool :=
@@ -220,8 +218,9 @@ Fixpoint hist_guards (b : backend) (d : disk) (c : cache) (l : list hop) : bool 
   end.
 
 (* A rejected case belongs to a known finding iff the implementation behaved exactly as the model predicts and some
-   operation of the case flushes a buffer outside guard_C11_tx (with all buffers inside the guard, C11_crash_safe_tx
-   excludes the rejection).  Which finding: 1 if some template is outside guard_C11_dup_id, else 2. *)
+   operation of the case is outside guard_C11_exact in the state it starts in (with all operations inside the guard,
+   C11_crash_safe_exact / C11_history_safe_exact exclude the rejection; outside it clause (a) does fail in the model).
+   Which finding: 1 if some template is outside guard_C11_dup_id, else 2. *)
 Definition finding_of (c : case) : N :=
   match c with
   | CCrash => 0
